@@ -412,6 +412,195 @@ def sendName (enc : Bytes) (domain : Name) : Outcome Name := queryName (enc.map 
 def recvEncoded (name domain : Name) : Option Bytes :=
   (trimSuffix name domain).map fun pre => pre.flatten.map toUpperB
 
+/-! ## The DNS registration channel end to end: query / response packaging
+
+`requester/dns.go` (`send`, `recvLoop`, `dnsResponsePayload`), `requester/requester.go`
+(`sendHandshake`, `RequestAndRecv`), `responder/responder.go` (`responseFor`, `RecvAndRespond`,
+`dnsRespToUDPResp`). Noise (`seal` / `open_`) and base32 (`enc` / `dec`) are parameters. -/
+
+/-- the OPT pseudo-RR both sides put into the additional section (EDNS(0), UDP payload size 4096) -/
+def optRR (ttl : UInt32) : RR := ⟨[], 41, 4096, ttl, []⟩
+
+/-- the query built by `send`: QR = 0, RD = 1, one TXT/IN question, EDNS(0) OPT in the additional section -/
+def queryMessage (id : UInt16) (name : Name) : Message :=
+  ⟨id, 0x0100, [⟨name, 16, 1⟩], [], [], [optRR 0]⟩
+
+/-- `send` from the base32 text on (`enc` in upper case, as the codec produces it): name, message, wire format -/
+def buildQuery (enc : Bytes) (dom : Name) (id : UInt16) : Outcome Bytes :=
+  (sendName enc dom).bind fun name => wireFormat (queryMessage id name)
+
+/-- how the `for _, rr := range query.Additional` loop of `responseFor` ends -/
+inductive OptScan where
+  /-- a second OPT RR: FORMERR, return at once (the response keeps the OPT RR added for the first) -/
+  | formErr (additional : List RR)
+  /-- EDNS version ≠ 0: BADVERS, return at once -/
+  | badVers (additional : List RR)
+  /-- loop ran to its end: the response's additional section and `payloadSize` -/
+  | done (additional : List RR) (payloadSize : Nat)
+deriving Repr, DecidableEq
+
+/-- the OPT loop of `responseFor`; `add` is `resp.Additional` so far, `ps` is `payloadSize` so far -/
+def scanOPT : List RR → List RR → Nat → OptScan
+  | [], add, ps => .done add ps
+  | rr :: rest, add, ps =>
+    if rr.rtype ≠ 41 then scanOPT rest add ps
+    else if add.length ≠ 0 then .formErr add
+    else
+      let version := (rr.ttl >>> 16) &&& 0xff
+      -- `additional.TTL = (dns.ExtendedRcodeBadVers >> 4) << 24`
+      if version ≠ 0 then .badVers [optRR (((16 : UInt32) >>> 4) <<< 24)]
+      else scanOPT rest [optRR 0] rr.rclass.toNat
+
+/-- `Responder.responseFor`. `none` = the Go function returns `(nil, nil)` (no response at all);
+otherwise the response message and the payload (`none` = Go `nil`, i.e. an error response;
+`some b` = the base32-decoded bytes of the labels in front of the domain, possibly empty).
+`dec` is base32 decoding of the upper-cased text. -/
+def responseFor (q : Message) (dom : Name) (maxUDP : Nat) (dec : Bytes → Option Bytes) :
+    Option (Message × Option Bytes) :=
+  let resp : Message := ⟨q.id, 0x8000, q.question, [], [], []⟩
+  if q.flags &&& 0x8000 ≠ 0 then none
+  else
+    match scanOPT q.additional [] 0 with
+    | .formErr add => some ({ resp with flags := resp.flags ||| 1, additional := add }, none)
+    -- `resp.Flags |= dns.ExtendedRcodeBadVers & 0xf`
+    | .badVers add => some ({ resp with flags := resp.flags ||| ((16 : UInt16) &&& 0xf), additional := add }, none)
+    | .done add ps0 =>
+      let resp : Message := { resp with additional := add }
+      let payloadSize := if ps0 < 512 then 512 else ps0
+      match q.question with
+      | [question] =>
+        match trimSuffix question.name dom with
+        | none => some ({ resp with flags := resp.flags ||| 3 }, none)            -- NXDOMAIN
+        | some pre =>
+          let resp : Message := { resp with flags := resp.flags ||| 0x0400 }      -- AA = 1
+          if (q.flags >>> 11) &&& 0xf ≠ 0 then some ({ resp with flags := resp.flags ||| 4 }, none)   -- NOTIMPL
+          else if question.qtype ≠ 16 then some ({ resp with flags := resp.flags ||| 3 }, none)       -- NXDOMAIN
+          else
+            match dec (pre.flatten.map toUpperB) with
+            | none => some ({ resp with flags := resp.flags ||| 3 }, none)        -- NXDOMAIN
+            | some payload =>
+              if payloadSize < maxUDP then some ({ resp with flags := resp.flags ||| 1 }, none)       -- FORMERR
+              else some (resp, some payload)
+      | _ => some ({ resp with flags := resp.flags ||| 1 }, none)                  -- FORMERR
+
+/-- `dnsRespToUDPResp`: a non-error response to exactly one question carries `payload` in one TXT answer -/
+def udpResponse (resp : Message) (payload : Bytes) : Outcome Bytes :=
+  let resp' : Message :=
+    if resp.flags &&& 0x000f = 0 then
+      match resp.question with
+      | [q] => { resp with answer := [⟨q.name, q.qtype, q.qclass, 60, encodeTXT payload⟩] }
+      | _ => resp
+    else resp
+  wireFormat resp'
+
+/-- `dnsResponsePayload` -/
+def dnsResponsePayload (resp : Message) (dom : Name) : Option Bytes :=
+  if resp.flags &&& 0x8000 ≠ 0x8000 then none
+  else if resp.flags &&& 0x000f ≠ 0 then none
+  else
+    match resp.answer with
+    | [answer] =>
+      match trimSuffix answer.name dom with
+      | none => none
+      | some _ =>
+        if answer.rtype ≠ 16 then none
+        else
+          match decodeTXT answer.data with
+          | .ok payload => some payload
+          | _ => none
+    | _ => none
+
+/-- requester `recvLoop` + `dnsResponsePayload`: the downstream payload of a received datagram.
+(In Go a failed check gives a `nil` payload, which is queued like an empty one; a datagram that does
+not parse is skipped.) -/
+def responsePayload (buf : Bytes) (dom : Name) : Option Bytes :=
+  match messageFromWireFormat buf with
+  | .ok resp => dnsResponsePayload resp dom
+  | _ => none
+
+/-- what `RequestAndRecv` hands to `RemoveResponseFormat`: `ReadFrom` copies the packet into the zeroed
+`recvBuf [4096]byte`, and the whole array is decoded -/
+def recvBuffer (payload : Bytes) : Bytes :=
+  payload.take 4096 ++ List.replicate (4096 - (payload.take 4096).length) 0
+
+/-- `sendHandshake` + `send`: Noise message, one-byte length prefix, base32 into the query name -/
+def requestEncode (seal : Bytes → Bytes) (enc : Bytes → Bytes) (dom : Name) (id : UInt16) (p : Bytes) : Outcome Bytes :=
+  (addRequestFormat (seal p)).bind fun f => buildQuery (enc f) dom id
+
+/-! `RecvAndRespond` only logs the error of `MessageFromWireFormat` and goes on with the message that
+`readMessage` returned next to the error: everything that was read completely before the failure
+(all of it when the error is `ErrTrailingBytes`). -/
+
+/-- the question loop of `readMessage`, keeping what was appended before an error -/
+def readQuestionsAcc (buf : Bytes) : Nat → Nat → List Question → List Question × Option Nat
+  | 0, pos, acc => (acc, some pos)
+  | k + 1, pos, acc =>
+    match readQuestion buf pos with
+    | .ok (q, p1) => readQuestionsAcc buf k p1 (acc ++ [q])
+    | _ => (acc, none)
+
+def readRRsAcc (buf : Bytes) : Nat → Nat → List RR → List RR × Option Nat
+  | 0, pos, acc => (acc, some pos)
+  | k + 1, pos, acc =>
+    match readRR buf pos with
+    | .ok (r, p1) => readRRsAcc buf k p1 (acc ++ [r])
+    | _ => (acc, none)
+
+/-- the `Message` value `MessageFromWireFormat` returns, whether or not it also returns an error -/
+def lenientParse (buf : Bytes) : Message :=
+  match readU16 buf 0 with
+  | .ok (id, _) =>
+    match readU16 buf 2 with
+    | .ok (flags, _) =>
+      match readU16 buf 4, readU16 buf 6, readU16 buf 8, readU16 buf 10 with
+      | .ok (qd, _), .ok (an, _), .ok (ns, _), .ok (ar, _) =>
+        match readQuestionsAcc buf qd.toNat 12 [] with
+        | (qs, none) => ⟨id, flags, qs, [], [], []⟩
+        | (qs, some p7) =>
+          match readRRsAcc buf an.toNat p7 [] with
+          | (ans, none) => ⟨id, flags, qs, ans, [], []⟩
+          | (ans, some p8) =>
+            match readRRsAcc buf ns.toNat p8 [] with
+            | (auth, none) => ⟨id, flags, qs, ans, auth, []⟩
+            | (auth, some p9) => ⟨id, flags, qs, ans, auth, (readRRsAcc buf ar.toNat p9 []).1⟩
+      | _, _, _, _ => ⟨id, flags, [], [], [], []⟩
+    | _ => ⟨id, 0, [], [], [], []⟩
+  | _ => ⟨0, 0, [], [], [], []⟩
+
+/-- `RecvAndRespond` up to the argument of the callback (`buf` = the datagram `ReadFrom` delivered):
+parse (errors only logged), `responseFor`, a non-nil payload, `RemoveRequestFormat`, Noise `ReadMessage`.
+`none` = the callback is not called. -/
+def requestDecode (open_ : Bytes → Option Bytes) (dec : Bytes → Option Bytes) (dom : Name) (maxUDP : Nat)
+    (buf : Bytes) : Option Bytes :=
+  match responseFor (lenientParse buf) dom maxUDP dec with
+  | some (_, some payload) =>
+    match removeRequestFormat payload with
+    | .ok f => open_ f
+    | _ => none
+  | _ => none
+
+/-- `AddResponseFormat` + `dnsRespToUDPResp` on the Noise-encrypted answer of the callback -/
+def responseEncode (sealR : Bytes → Bytes) (resp : Message) (r : Bytes) : Outcome Bytes :=
+  (addResponseFormat (sealR r)).bind fun f => udpResponse resp f
+
+/-- the tail of `RecvAndRespond`: a datagram longer than `maxUDPPayload` is replaced by the response
+with an empty payload -/
+def responseSend (sealR : Bytes → Bytes) (resp : Message) (maxUDP : Nat) (r : Bytes) : Outcome Bytes :=
+  (responseEncode sealR resp r).bind fun b =>
+    if b.length > maxUDP then udpResponse resp [] else .ok b
+
+/-- requester `recvLoop` + `RequestAndRecv`: payload of the datagram, copied into the 4096-byte buffer,
+`RemoveResponseFormat` of the whole buffer, Noise `Decrypt`. A datagram that does not parse is skipped
+(nothing is queued, `none`); a datagram that fails a check of `dnsResponsePayload` is queued as an
+empty packet. `none` = `RequestAndRecv` does not return a plaintext. -/
+def responseDecode (openR : Bytes → Option Bytes) (dom : Name) (buf : Bytes) : Option Bytes :=
+  match messageFromWireFormat buf with
+  | .ok resp =>
+    match removeResponseFormat (recvBuffer ((dnsResponsePayload resp dom).getD [])) with
+    | .ok f => openR f
+    | _ => none
+  | _ => none
+
 /-! ## Tag obfuscators (pkg/transports/obfuscate.go) over abstract primitives -/
 
 /-- The primitives the obfuscators call. Nothing is assumed about them here; the laws the round trip
